@@ -57,7 +57,7 @@ def canon(e, fn=None):
                     return "%s[%s..%s]" % (b, canon(rng[2][0], fn), canon(rng[2][1], fn))
         if e[1] in TRANSPARENT_CALLS or e[1].endswith("Result::<T, E>::unwrap") or "TryFrom<" in e[1] and e[1].endswith("::try_from") or e[1] == "core::convert::TryFrom::try_from":
             return canon(e[2][0], fn)
-        return "%s(%s)" % (e[1], ",".join(canon(a, fn) for a in e[2]))
+        return "%s(%s)" % (_callname(e[1]), ",".join(canon(a, fn) for a in e[2]))
     if k == "bin":
         if e[1] in ("Add", "Sub", "Mul", "AddUnchecked", "SubUnchecked", "MulUnchecked", "Shl"):
             l, c = lin(e, fn)
@@ -90,6 +90,8 @@ def canon(e, fn=None):
         return "K:%s" % (e[1],)
     if k == "downcast":
         return "%s?%s" % (canon(e[1], fn), e[3])
+    if k == "disc":
+        return "disc(%s)" % canon(e[1], fn)
     return fmt(e)
 
 
@@ -281,20 +283,31 @@ def atom(rel, bound, coeffs):
     return A(rel, bound, **coeffs)
 
 
-def short(e, fn=None):
-    """canon() with call paths shortened to their last path segment(s) — for wiring rules that
-    compare whole dataflow expressions such as `to_bytes(scalarmult_base(nonce))`."""
-    s = canon(e, fn)
+_SHORT = [False]
+
+
+def _callname(name):
+    if not _SHORT[0]:
+        return name
     import re as _re
-    def sh(m):
-        p = m.group(0)
-        if p.startswith("arg") or p.startswith("v:") or p.startswith("len(") or p.startswith("lin{") or p.startswith("mod("):
-            return p
-        parts = [x for x in _re.split(r"::", p) if x]
-        # keep Type::method for inherent methods, method for free functions
-        tail = parts[-1]
-        if len(parts) >= 2 and _re.match(r"^[A-Z]", parts[-2].lstrip("<")):
-            return parts[-2].lstrip("<").split("<")[0] + "::" + tail
-        return tail
-    # shorten every path-like token that precedes '('
-    return _re.sub(r"[A-Za-z_<][A-Za-z0-9_:<>&;, \[\]']*?(?=\()", lambda m: sh(m) if "::" in m.group(0) else m.group(0), s)
+    name = _re.sub(r"#.*$", "", name)
+    parts = [x for x in name.split("::") if x]
+    tail = parts[-1]
+    if len(parts) >= 2:
+        prev = parts[-2]
+        prev = prev.split(" as ")[-1]
+        prev = prev.lstrip("<&").split("<")[0].rstrip(">")
+        prev = prev.split("::")[-1]
+        if _re.match(r"^[A-Z]", prev):
+            return prev + "::" + tail
+    return tail
+
+
+def short(e, fn=None):
+    """canon() with call paths shortened to `Type::method` / `function` — for wiring rules that
+    compare whole dataflow expressions such as `Ge::to_bytes(Ge::scalarmult_base(nonce))`."""
+    _SHORT[0] = True
+    try:
+        return canon(e, fn)
+    finally:
+        _SHORT[0] = False
